@@ -918,8 +918,16 @@ let run_upl toks =
         let allowed = (finalize_join true s = Some true) in
         Some (Printf.sprintf "%s put_failed=%b shard_started=%s success=%s" (String.trim name) put_failed
                 (if shard_started && not allowed then "NOT-ALLOWED-BY-MODEL" else string_of_bool shard_started)
-                (* success is possible only when nothing failed; without failures every call returns Ok *)
-                (string_of_bool (not put_failed && not shard_failed)))
+                (* what the caller is told, by the model's session_result on the whole log: the registrations and completions
+                   of the puts, then the shard uploads with their outcomes; a session can report success only when the model's
+                   session does (finalize still waiting for a put that was cut off by an earlier error is not a success) *)
+                (let all_events = List.filter_map (function
+                     | ["put_start"; k] -> Some (URegister (nat_of_int (int_of_string k)))
+                     | ["put_end"; k; r] -> Some (UFinish (nat_of_int (int_of_string k), r = "ok"))
+                     | _ -> None) toks in
+                 let shards = List.filter_map (function ["shard_end"; _; r] -> Some (r = "ok") | _ -> None) toks in
+                 ignore shard_failed;
+                 string_of_bool (session_result true all_events shards = Some true)))
       | [] -> None) (List.filter (fun x -> String.trim x <> "") (split_str " || " text))
 
 let () =
